@@ -215,25 +215,38 @@ theorem evalSegpress_eq (i : Nat) (c : Ctx K) (w : WellIn K) (ws : List (WellIn 
 
 /-! ## regions -/
 
+/-- what one connection of the region adds: nothing for a well reported SHUT, else the
+connection rate times the well's efficiency factor, clamped to the direction -/
+def regionTerm (p : Rt) (inj : Bool) (efac : String → K) (dyns : List (String × WellDyn K))
+    (wc : String × Nat) : K :=
+  if dynShut dyns wc.1 then 0 else keep inj (connRate dyns wc.1 wc.2 p * efac wc.1)
+
 theorem regionLoop_eq (p : Rt) (inj : Bool) (efac : String → K) (dyns : List (String × WellDyn K))
     (l : List (String × Nat)) (acc : K) :
-    regionLoop p inj efac dyns l acc =
-      acc + (l.map fun wc => keep inj (connRate dyns wc.1 wc.2 p * efac wc.1)).sum := by
+    regionLoop p inj efac dyns l acc = acc + (l.map (regionTerm p inj efac dyns)).sum := by
   induction l generalizing acc with
   | nil => simp [regionLoop]
   | cons wc r ih =>
     obtain ⟨wn, g⟩ := wc
     unfold regionLoop
     simp only [List.map_cons, List.sum_cons, s_pos, s_mul, s_add, s_zero]
-    by_cases hk : decide (0 < connRate dyns wn g p * efac wn) = inj
-    · rw [if_pos hk, ih]; unfold keep; rw [if_pos hk]; ring
-    · rw [if_neg hk, ih]; unfold keep; rw [if_neg hk]; ring
+    by_cases hsh : dynShut dyns wn = true
+    · have ht : regionTerm p inj efac dyns (wn, g) = 0 := by simp [regionTerm, hsh]
+      rw [if_pos hsh, ih, ht]; ring
+    · rw [if_neg hsh]
+      by_cases hk : decide (0 < connRate dyns wn g p * efac wn) = inj
+      · have ht : regionTerm p inj efac dyns (wn, g) = connRate dyns wn g p * efac wn := by
+          unfold regionTerm keep; rw [if_neg hsh, if_pos hk]
+        rw [if_pos hk, ih, ht]; ring
+      · have ht : regionTerm p inj efac dyns (wn, g) = 0 := by
+          unfold regionTerm keep; rw [if_neg hsh, if_neg hk]
+        rw [if_neg hk, ih, ht]; ring
 
 /-- `region_rate_sem`: a region rate is the signed sum, over the connections that lie in the
-region, of the connection rate times the well's efficiency factor, clamped to the direction. -/
+region and belong to wells not reported SHUT, of the connection rate times the well's
+efficiency factor, clamped to the direction. -/
 theorem evalRegionRate_eq (p : Rt) (inj : Bool) (c : Ctx K) :
-    evalRegionRate p inj c =
-      sgn inj * (c.rconns.map fun wc => keep inj (connRate c.dyns wc.1 wc.2 p * c.efac wc.1)).sum := by
+    evalRegionRate p inj c = sgn inj * (c.rconns.map (regionTerm p inj c.efac c.dyns)).sum := by
   unfold evalRegionRate sgn
   cases inj <;> simp [regionLoop_eq]
 
@@ -250,24 +263,54 @@ theorem region_rates_add (p : Rt) (inj : Bool) (c : Ctx K) (ls : List (List (Str
     simp only [List.flatten_cons, List.map_append, List.sum_append, List.map_cons, List.sum_cons]
     rw [← ih]; ring
 
-/-- region rates are non-negative when efficiency factors are -/
+theorem regionTerm_signed_nonneg (p : Rt) (inj : Bool) (efac : String → K) (dyns : List (String × WellDyn K))
+    (wc : String × Nat) : 0 ≤ sgn inj * regionTerm p inj efac dyns wc := by
+  unfold regionTerm
+  split
+  · simp
+  · cases inj
+    · have := keep_false_nonpos (connRate dyns wc.1 wc.2 p * efac wc.1)
+      simp only [sgn, Bool.false_eq_true, if_false]; linarith
+    · have := keep_true_nonneg (connRate dyns wc.1 wc.2 p * efac wc.1)
+      simp only [sgn, if_true]; linarith
+
+/-- region rates are non-negative -/
 theorem evalRegionRate_nonneg (p : Rt) (inj : Bool) (c : Ctx K) : 0 ≤ evalRegionRate p inj c := by
   rw [evalRegionRate_eq]
-  have key : ∀ l : List (String × Nat),
-      0 ≤ sgn inj * (l.map fun wc => keep inj (connRate c.dyns wc.1 wc.2 p * c.efac wc.1)).sum := by
+  have key : ∀ l : List (String × Nat), 0 ≤ sgn inj * (l.map (regionTerm p inj c.efac c.dyns)).sum := by
     intro l
     induction l with
     | nil => simp
     | cons a t ih =>
       simp only [List.map_cons, List.sum_cons, mul_add]
-      have : 0 ≤ sgn inj * keep inj (connRate c.dyns a.1 a.2 p * c.efac a.1) := by
-        cases inj
-        · have := keep_false_nonpos (connRate c.dyns a.1 a.2 p * c.efac a.1)
-          simp only [sgn, Bool.false_eq_true, if_false]; linarith
-        · have := keep_true_nonneg (connRate c.dyns a.1 a.2 p * c.efac a.1)
-          simp only [sgn, if_true]; linarith
+      have := regionTerm_signed_nonneg p inj c.efac c.dyns a
       linarith
   exact key _
+
+/-- **Shut wells contribute nothing to a region**: if every connection of the region belongs to a
+well the results report as SHUT, every region rate is 0 — whatever the connection rates are. -/
+theorem region_all_shut_zero (p : Rt) (inj : Bool) (c : Ctx K)
+    (h : ∀ wc ∈ c.rconns, dynShut c.dyns wc.1 = true) : evalRegionRate p inj c = 0 := by
+  rw [evalRegionRate_eq]
+  have : (c.rconns.map (regionTerm p inj c.efac c.dyns)).sum = 0 := by
+    have hz : ∀ l : List (String × Nat), (∀ wc ∈ l, dynShut c.dyns wc.1 = true) →
+        (l.map (regionTerm p inj c.efac c.dyns)).sum = 0 := by
+      intro l hl
+      induction l with
+      | nil => simp
+      | cons a t ih =>
+        simp only [List.map_cons, List.sum_cons]
+        rw [ih (fun wc hwc => hl wc (by simp [hwc]))]
+        simp [regionTerm, hl a (by simp)]
+    exact hz _ h
+  rw [this]; simp
+
+/-- a shut well's connections can be removed from the region without changing its rates -/
+theorem region_shut_connection_irrelevant (p : Rt) (inj : Bool) (c : Ctx K) (wc : String × Nat)
+    (rest : List (String × Nat)) (h : dynShut c.dyns wc.1 = true) :
+    evalRegionRate p inj { c with rconns := wc :: rest } = evalRegionRate p inj { c with rconns := rest } := by
+  simp only [evalRegionRate_eq, List.map_cons, List.sum_cons]
+  simp [regionTerm, h]
 
 /-- a connection without results (well or connection absent from `data::Wells`) adds nothing -/
 theorem connRate_absent (p : Rt) (wn : String) (g : Nat) : connRate ([] : List (String × WellDyn K)) wn g p = 0 := rfl
